@@ -189,8 +189,10 @@ structure Page where
   next : Option Entry
   deriving Repr
 
-/-- ptt.LoadGeneralBoards / ptt.LoadAutoCompleteBoards from a 1-based `startIdx`. -/
-def pttLoad (es : List Entry) (stop : Entry → Bool) (startIdx : Int) (nBoards : Int) (isAsc : Bool) : M Page := do
+/-- the common frame of ptt.LoadGeneralBoards / LoadAutoCompleteBoards / LoadGeneralBoardDetails from a 1-based
+`startIdx`: `collect` is the function's own loop over the sequence of sorted positions it visits. -/
+def pttLoadG (collect : List Entry → Nat → List Entry) (es : List Entry) (startIdx : Int) (nBoards : Int)
+    (isAsc : Bool) : M Page := do
   let startIdx := if startIdx = 0 ∧ ¬ isAsc then Int.ofNat es.length else startIdx
   let s : Int := startIdx - 1
   let cap : Int := nBoards + 1
@@ -201,11 +203,24 @@ def pttLoad (es : List Entry) (stop : Entry → Bool) (startIdx : Int) (nBoards 
         (if s < 0 then (if cap = 0 then pure [] else .error .panic)   -- BSorted[k][-1] (not reachable from bbs)
          else pure (es.drop s.toNat))
       else (if s < 0 then pure [] else pure (downFrom es s.toNat))
-    let got := gather stop listable seq cap.toNat
+    let got := collect seq cap.toNat
     if Int.ofNat got.length = cap then
       if nBoards < 0 then .error .panic      -- summaries[-1]
       else pure ⟨got.take nBoards.toNat, got[nBoards.toNat]?⟩
     else pure ⟨got, none⟩
+
+/-- ptt.LoadGeneralBoards / ptt.LoadAutoCompleteBoards. -/
+def pttLoad (es : List Entry) (stop : Entry → Bool) (startIdx : Int) (nBoards : Int) (isAsc : Bool) : M Page :=
+  pttLoadG (gather stop listable) es startIdx nBoards isAsc
+
+/-- what ptt.LoadGeneralBoardDetails keeps (since fix 6f287ee): a valid bid and a non-vacated slot — no group or
+permission filter. -/
+def detailOK (maxBoard : Nat) (e : Entry) : Bool := validBid maxBoard e && e.b.name.getD 0 0 != 0
+
+/-- ptt.LoadGeneralBoardDetails (since 6f287ee the loops run while `len(details) < nBoards + 1`: skipped entries no
+longer count against the page — the same collecting loop as the other listings, without a `break`). -/
+def pttLoadDetails (maxBoard : Nat) (es : List Entry) (startIdx : Int) (nBoards : Int) (isAsc : Bool) : M Page :=
+  pttLoadG (gather (fun _ => false) (detailOK maxBoard)) es startIdx nBoards isAsc
 
 inductive Err where
   | fault (f : Fault)
@@ -293,6 +308,16 @@ def walkFuel (n : Nat) : Nat := n + 2
 
 def walkGeneral (t : Tbl) (by_ : SortBy) (nBoards : Int) (isAsc : Bool) : R (List (List Entry)) :=
   walkFrom (fun c => loadGeneral t by_ c nBoards isAsc) by_ (walkFuel (t.view by_).length) none
+
+/-- bbs.LoadGeneralBoardDetails: the same cursor handling (`NewBoardDetailFromRaw` serialises `IdxByName` /
+`IdxByClass` exactly like `NewBoardSummaryFromRaw`), every slot of the view listed. -/
+def loadDetails (t : Tbl) (by_ : SortBy) (c : Option Cursor) (nBoards : Int) (isAsc : Bool) : R Page := do
+  let startIdx ← startOfCursor t by_ c isAsc
+  if startIdx < 0 then pure ⟨[], none⟩
+  else liftM (pttLoadDetails t.maxBoard (t.view by_) startIdx nBoards isAsc)
+
+def walkDetails (t : Tbl) (by_ : SortBy) (nBoards : Int) (isAsc : Bool) : R (List (List Entry)) :=
+  walkFrom (fun c => loadDetails t by_ c nBoards isAsc) by_ (walkFuel (t.view by_).length) none
 
 def walkAuto (t : Tbl) (nBoards : Int) (kw : List Nat) (isAsc : Bool) : R (List (List Entry)) :=
   walkFrom (fun c => loadAuto t c nBoards kw isAsc) .name (walkFuel t.byName.length) none
